@@ -159,7 +159,8 @@ def coq_case(doc, ns, u, text2, r2):
     enc.uid = 0
     term2, _ = xml2coq.encode_bytes(text2.encode('utf-8'), enc)
     ve = c05.VEnc(enc)
-    view = ve.doc(r2['snap'])
+    import xml.etree.ElementTree as ET
+    view = ve.doc(r2['snap'], ET.fromstring(text2.encode('utf-8')))
     numtab = ve.numtab()
     return '([%s], %s, %d, %s, %s)' % ('; '.join('%d' % c for c in numtab), term1, enc.I.atom(u), term2, view), enc.I.table()
 
